@@ -57,6 +57,7 @@ K_ADJ = "nonzeros-not-at-most-two-adjacent"
 K_DEC = "decoding-does-not-return-value"
 K_RT = "roundtrip-does-not-return-value"
 K_BATCH = "row-depends-on-batch"
+K_NUMT = "row-depends-on-number-type-of-the-value"
 K_CE = "value!=-sum(target*log_softmax)"
 K_HQ = "quadratic-branch-value"
 K_HL = "linear-branch-value"
@@ -312,6 +313,29 @@ def work_twohot(item, col):
                     col.violation(SIG.format("two_hot_encoding", K_BATCH), dict(base, x=float(xs[i]), x_tags=tags[i], alone=r1, in_batch=rows[i]))
                 k += 1
             col.outcome("twohot_single_sample_calls", k)
+
+    # ---- number type of the values: the same numbers as int32 / int64 / float16 arrays encode to the same rows -----
+    if ok and mode == "eager":
+        ints = [k for k in range(int(np.ceil(b64[0])), int(np.floor(b64[-1])) + 1)]
+        if len(ints) > 9:
+            ints = ints[:: max(1, len(ints) // 9)][:9] + [ints[-1]]
+        halves = [v for v in (k + 0.5 for k in ints) if b64[0] <= v <= b64[-1]]  # exactly representable in float16
+        variants = []
+        if ints:
+            variants += [("int32", np.asarray(ints, np.int32)), ("int64", np.asarray(ints, np.int64))]
+        if halves and max(abs(v) for v in halves) < 1000:
+            variants.append(("float16", np.asarray(halves, np.float16)))
+        for tname, arr in variants:
+            okf, rf = call(col, "two_hot_encoding", dict(base, value_dtype="float32", n_samples=len(arr)), enc, bj, jnp.asarray(arr.astype(np.float32)))
+            okt, rt_ = call(col, "two_hot_encoding", dict(base, value_dtype=tname, n_samples=len(arr)), enc, bj, jnp.asarray(arr))
+            if not (okf and okt):
+                continue
+            col.tick(len(arr), ("twohot-numtype", spec["tag"], tname))
+            col.outcome("twohot_number_type_comparisons", len(arr))
+            if rt_.shape != rf.shape or not np.allclose(rt_.astype(np.float64), rf.astype(np.float64), rtol=0, atol=1e-6):
+                bad = int(np.nonzero(~np.isclose(rt_.astype(np.float64), rf.astype(np.float64), rtol=0, atol=1e-6).all(axis=1))[0][0]) if rt_.shape == rf.shape else 0
+                col.violation(SIG.format("two_hot_encoding", K_NUMT), dict(base, value_dtype=tname, x=float(arr[bad]), row=rt_[bad] if rt_.ndim == 2 else None,
+                                                                           row_for_float32=rf[bad]))
 
     # ---- decoding of the harness-made reference rows ----------------------------------------------
     ref32 = ref_rows.astype(np.float32)
